@@ -1,0 +1,7 @@
+//go:build verif
+
+package bchutil
+
+// VerifPolyMod exposes the CashAddr checksum remainder function to the
+// runtime-monitoring harness.  It is compiled only with -tags verif.
+func VerifPolyMod(v []byte) uint64 { return polyMod(v) }
